@@ -4,11 +4,11 @@ a file of thorough-tier wall times ("C01 rc=0 wall=264s ..." lines as written by
 import json, re, sys, os
 
 BOUND = {
- "C01": "all programs <= 3 operators, all operand forms at the root / + all 4-operator programs in borrowed form; magnitude leaf table to 2 / 3 operators; 9 deep formulas (143 stages); 10 unary functions on 7 .. 130 names",
+ "C01": "all programs <= 3 operators, all operand forms at the root / + all 4-operator programs in borrowed form; magnitude leaf table to 2 / 3 operators; 9 deep formulas (143 stages); 10 unary functions on 7 .. 130 names and at 10 awkward magnitudes",
  "C02": "<= 2 operators all forms + 3 borrowed / <= 3 all forms + 4 borrowed; magnitude table, deep formulas and many-names pass as C01, at second order",
- "C03": "3 names (79 operands per side, both value pairs, 3 storage relations) + 4-name subset / 4 names, with negative-zero twins; layouts of 9 .. 130 names in 9 relations, all operators, ==, remainder, sums, float operands; sequential pass over 65 x 65 layout pairs",
- "C04": "window 8 / 11, 3 anchors, every boundary position; 19 named calendars x all dates (piped ones also inside CalType); 127 x 5 masks; closure runs 12 .. 70 and 365 .. 800 days; three-member unions in every order",
- "C05": "window 5 / 7 on 4 x 4 week-mask pairs, every i8; runs of 12, 35, 64, 367, 430 closures; holiday supply in four forms (sorted, reversed, interleaved, doubled); named calendars, piped ones also inside CalType",
+ "C03": "3 names (79 operands per side, both value pairs, 3 storage relations) + 4-name subset / 4 names, with negative-zero twins; layouts of 9 .. 130 names in 9 relations, all operators, ==, remainder, sums, float operands; sequential pass over 65 x 65 layout pairs; non-standard memory layouts; bitwise layout differential on 5 derivative tables x 5 layouts",
+ "C04": "window 8 / 11, 3 anchors, every boundary position; 19 named calendars x all dates (piped ones also inside CalType); 127 x 5 masks (an eighth of them also with split working weeks); closure runs 12 .. 70 and 365 .. 800 days; three-member unions in every order",
+ "C05": "window 5 / 7 on 4 x 4 week-mask pairs, every i8; runs of 12, 35, 64, 367, 430 closures; holiday supply in four forms (sorted, reversed, interleaved, doubled); every fifth mask case with split working weeks; named calendars, piped ones also inside CalType",
  "C06": "unions of 1-3 members in every order; 1 806 x 3 name strings / + all 44 310 strings over 14 names; one-day differences in every year 1970-2200 / + every day of every 4th year",
  "C07": "complete in both tiers; plus one sequential name-resolution history (14 names x 3 passes, 42 ordered pairs x 5 named calendars)",
  "C08": "every start date; offsets -40..40 / -130..130; all roll kinds",
@@ -17,13 +17,13 @@ BOUND = {
  "C11": "n <= 5 / 6 nodes, all supply permutations; index_left lists <= 9 / 11 and long lists <= 48 / 130; 7 .. 130 nodes on six grids",
  "C12": "3 600 / more initial curves to fixpoint; 9 .. 210 nodes on six grids through the switches 1, 2, 1, 0, 2; every ordered pair of 40 (curve id, node count) configurations",
  "C13": "all patterns <= 3x3, every 7th 4x4 / all 65 536; permutations 4..5 / 6, generator set <= 8, four permutations of 9 .. 33; two row-scale vectors; tiny entry at six magnitudes; tall <= 12x6",
- "C14": "k <= 6 / 7 on the 5-position grid; 7 .. 64 interior knots for k <= 5; six power-of-two scalings, five translations with both signs of zero; vector route in three point orders",
- "C15": "k <= 4 / 6 exact-rational space (sites also with the interior reversed / rotated / swapped); every ordered pair of re-solve configurations; long splines up to 64 coefficients",
+ "C14": "k <= 6 / 7 on the 5-position grid; 7 .. 64 interior knots for k <= 5; ten power-of-two scalings (2^-1060 .. 2^900), five translations with both signs of zero, far translation by 2^53; vector route in three point orders",
+ "C15": "k <= 4 / 6 exact-rational space (sites also with the interior reversed / rotated / swapped); every ordered pair of re-solve configurations with two kinds of refused solve in between; long splines up to 64 coefficients",
  "C16": "2^13 / 2^18 consecutive doubles x 10 anchors; structures; unions up to 14 members; objects of 5 .. 130 names / nodes / coefficients",
  "C17": "4 names, every requested list; sizes 3 .. 33 with the selection x order x padding request menu; four numbers with non-finite entries x every requested list",
- "C18": "3 / 6 values x 6 contents; every raising history of length <= 3",
- "C19": "9 / 16 values x 4 contents; sums <= 4 / 5 and long sums 7 .. 130; quotients to 1e27",
- "C20": "JSON single mutations for 17 documents, pairs for documents <= 26 / 44 nodes; constructors incl. 8 .. 100 names; k <= 4 / 5 for csolve",
+ "C18": "3 / 6 values x 6 contents; every raising history of length <= 3; sums of three over 7 values x 27 kind triples",
+ "C19": "9 / 16 values x 4 contents; sums <= 4 / 5 over a pool of 8 and long sums 7 .. 130; quotients to 1e27, operands down to subnormal",
+ "C20": "JSON single mutations for 17 documents, pairs for documents <= 26 / 44 nodes; constructors incl. 8 .. 100 names; k <= 4 / 5 for csolve, and the smallest splines (k <= 3, <= 3 basis functions)",
 }
 
 def fmt(n):
